@@ -104,6 +104,40 @@ Theorem C17_mat_read_from_establishes_inv : forall m m' n size rows cin cout len
 Proof. exact mat_read_from_inv. Qed.
 Print Assumptions C17_mat_read_from_establishes_inv.
 
+(* both outcomes of a read: Err leaves the receiver EXACTLY as it was (shape and Inv), Ok leaves it well formed *)
+Theorem C17_read_from_preserves_inv : forall v h avail,
+  wf_v v -> Inv v -> v_w v = 8 -> 0 <= sh_n h /\ 0 <= sh_cols h /\ 0 <= sh_size h /\ 0 <= sh_max h ->
+  wf_v (apply_read v (v_read_from v h avail)) /\ Inv (apply_read v (v_read_from v h avail)) /\
+  v_len (apply_read v (v_read_from v h avail)) = v_len v /\
+  (v_read_from v h avail = RErr -> apply_read v (v_read_from v h avail) = v).
+Proof. exact read_preserves. Qed.
+Print Assumptions C17_read_from_preserves_inv.
+
+Theorem C17_mat_read_from_preserves_inv : forall m n size rows cin cout len avail,
+  InvM m -> m_w m = 8 ->
+  InvM (m_apply_read m (m_read_from m n size rows cin cout len avail)) /\
+  m_len (m_apply_read m (m_read_from m n size rows cin cout len avail)) = m_len m /\
+  (m_read_from m n size rows cin cout len avail = None -> m_apply_read m (m_read_from m n size rows cin cout len avail) = m).
+Proof. exact m_read_preserves. Qed.
+Print Assumptions C17_mat_read_from_preserves_inv.
+
+(* history 13 (a larger self-consistent object read into the receiver, whatever the outcome) keeps the receiver well formed *)
+Theorem C17_read_larger_preserves_inv :
+  (forall rc how, wf_v rc -> Inv rc -> v_w rc = 8 ->
+     wf_v (read_larger rc how) /\ Inv (read_larger rc how) /\ v_len (read_larger rc how) = v_len rc) /\
+  (forall m how, InvM m -> m_w m = 8 -> InvM (m_read_larger m how) /\ m_len (m_read_larger m how) = m_len m).
+Proof. exact (conj read_larger_inv m_read_larger_inv). Qed.
+Print Assumptions C17_read_larger_preserves_inv.
+
+(* the seeded faulty reader that assigns the shape before the buffer-length check (seeded/C17d) is refuted: a rejected
+   read of a matrix with one more limb leaves the sender's shape on the receiver's smaller buffer *)
+Theorem C17_read_commit_early_refuted :
+  exists m n size rows cin cout len,
+    wf_m m /\ InvM m /\ m_w m = 8 /\ m_read_from m n size rows cin cout len len = None /\
+    ~ InvM (m_read_from_commit_early m n size rows cin cout len).
+Proof. exact read_commit_early_refuted. Qed.
+Print Assumptions C17_read_commit_early_refuted.
+
 (* VecZnx / ScalarZnx::from_data after repair 2067fe8 *)
 Theorem C17_from_data_checked_establishes_inv : forall len n cols size w v,
   0 <= n -> 0 <= cols -> 0 <= size -> 0 < w -> 0 <= len ->
@@ -142,10 +176,10 @@ Print Assumptions C17_take_zero_outside_refuted.
 
 (* ---- histories of the harness: every history establishes Inv (chk: from_data validates its buffer, which every layout
    does since 2067fe8 / 122d562) ---- *)
-Theorem C17_histories_establish_inv : forall vec chk n cols size w hist hp1 hp2 v,
+Theorem C17_histories_establish_inv : forall vec chk ser n cols size w hist hp1 hp2 v,
   0 <= n -> 0 <= cols -> 0 <= size -> 0 < w -> 0 <= hp1 -> 0 <= hp2 ->
   (hist = 9 -> chk = true) ->
-  hist_hdr vec chk n cols size w (cols * size) hist hp1 hp2 = HOk v -> wf_v v /\ Inv v.
+  hist_hdr vec chk ser n cols size w (cols * size) hist hp1 hp2 = HOk v -> wf_v v /\ Inv v.
 Proof. exact histories_inv. Qed.
 Print Assumptions C17_histories_establish_inv.
 
